@@ -533,6 +533,24 @@ func ruleTABLEFILL(w *World, r *Report, floor int, tables ...string) {
 						}
 					}
 				}
+				// other writers of the same table (e.g. copy into a second half): the loop is then not the only filler
+				otherWriter := false
+				for _, f2 := range w.funcsInPkgs("gf2p16") {
+					if !initFns[f2] {
+						continue
+					}
+					for _, c := range callInstrs(f2) {
+						if bc, ok := c.Common().Value.(*ssa.Builtin); ok && bc.Name() == "copy" {
+							if sl, ok := c.Common().Args[0].(*ssa.Slice); ok && sl.X == ssa.Value(g) {
+								otherWriter = true
+							}
+						}
+					}
+				}
+				if otherWriter && !(start == 0 && bound == alen) {
+					r.ok("TABLEFILL", key, w.ipos(ia), fmt.Sprintf("loop fills [%d, %d) and the rest of the table is written by copy(): coverage is then a question of values (index bounds are RANGE's business)", start, bound))
+					continue
+				}
 				if start == 0 && bound == alen {
 					r.ok("TABLEFILL", key, w.ipos(ia), fmt.Sprintf("filled for index 0..%d, the table has %d entries", bound-1, alen))
 				} else {
